@@ -21,6 +21,10 @@ def typing_state_census(ctx, prop, label="FS"):
             continue
         if rel.endswith("regex.py"):
             shared += frames.check_frame(mi, rel, (), roots={"cls", "G", "self"}, self_rebind_in=lambda q: q.endswith(".__init__"))
+        elif rel.endswith(("core/_structured.py", "core/modules.py", "core/vectors.py", "core/parts.py")):
+            # the typing classes: nothing but the pattern cache may be written -- in particular not the record a wrapper
+            # was handed (an annotation filled in by one class is seen by the next class asked about the same record)
+            shared += frames.check_frame(mi, rel, {"cls._regex"})
         else:
             shared += frames.check_frame(mi, rel, {"cls._regex"}, roots={"cls", "G"})
         shared += frames.memoised(mi, rel)
